@@ -298,6 +298,13 @@ func probeSched(f []string) string {
 			}
 		case "pause":
 			time.Sleep(time.Duration(atoi(a[1])) * time.Millisecond)
+		case "slowlogout":
+			be.logoutDelayMs.Store(int64(atoi(a[1])))
+		case "connclose":
+			// the application closes the connection itself (Conn.Close is exported), from another goroutine
+			if c := be.lastConn.Load(); c != nil {
+				go c.Close()
+			}
 		case "idle":
 			ok := false
 			for i := 0; i < 600; i++ {
